@@ -1787,7 +1787,7 @@ def _describe(ctx):
     if ctx.pid == "C06":
         ctx.rule = ("abstract designs (1-7 modules in shuffled order incl. use before declaration, ANSI or header-only ports, "
                     "wire ranges [msb:lsb] with lsb 0..5, module ports based at 0, every connection expression shape and width "
-                    "<= port width, named and positional maps, escaped identifiers, comments, `celldefine primitives, "
+                    "<= port width, named and positional maps, escaped identifiers, comments, `celldefine primitives (the directives indented, followed on their line by blanks / tabs / a `//` or a closed `/* */` comment, or on the line of the preceding `endmodule`), "
                     "never-declared black boxes instantiated by name or (several times) by position, concatenations whose end bits are the two ends "
                     "of one part-select with other bits in between, parameters (#( ) or defparam), (* *) attributes in one or several groups "
                     "per object with flags after valued keys, assigns, alias header ports over scalar nets, "
